@@ -4,6 +4,7 @@ import (
 	"fmt"
 	"go/token"
 	"go/types"
+	"os"
 	"sort"
 	"strings"
 
@@ -231,6 +232,13 @@ func (g *Gen) runBody() {
 // lookupVar finds the value of source variable `name` as of the end of block blk (idx = -1: whole block).
 func (g *Gen) lookupVar(name string, blk *ssa.BasicBlock, idx int, st *State) (Val, bool) {
 	refs := g.debugVals[name]
+	if os.Getenv("VERIF_DEBUG_LOOKUP") == name {
+		fmt.Fprintf(os.Stderr, "lookupVar %s blk=%v idx=%d refs=%d\n", name, blk, idx, len(refs))
+		for _, r := range refs {
+			_, have := g.vals[r.val]
+			fmt.Fprintf(os.Stderr, "   ref blk=%v idx=%d addr=%v val=%s have=%v\n", r.blk, r.idx, r.addr, r.val.Name(), have)
+		}
+	}
 	// several variables may share the name (shadowing): keep the one in scope at lookupPos
 	if len(refs) > 1 && g.lookupPos.IsValid() {
 		var best types.Object
@@ -323,6 +331,31 @@ func (g *Gen) lookupVar(name string, blk *ssa.BasicBlock, idx int, st *State) (V
 			}
 		}
 		if best >= 0 {
+			if c, isConst := bestRef.val.(*ssa.Const); isConst && c.IsNil() {
+				// x/tools v0.29.0 records the definition `m := map[K]V{}` (and []T{}) as "m is nil" next to the
+				// make instruction; the variable's other references name the made value.  Use it when it was made
+				// within a few instructions of this reference in the same block (and has been executed).
+				for _, r2 := range refs {
+					in, isInstr := r2.val.(ssa.Instruction)
+					if !isInstr || r2.obj != bestRef.obj || in.Block() != b {
+						continue
+					}
+					switch r2.val.(type) {
+					case *ssa.MakeMap, *ssa.MakeSlice, *ssa.Slice:
+					default:
+						continue
+					}
+					at := -1
+					for k, x := range b.Instrs {
+						if x == in {
+							at = k
+						}
+					}
+					if _, have := g.vals[r2.val]; have && at >= 0 && at < limit && at-best <= 4 && best-at <= 4 {
+						return g.val(r2.val), true
+					}
+				}
+			}
 			if bestRef.addr {
 				p := g.val(bestRef.val)
 				elem := bestRef.val.Type().Underlying().(*types.Pointer).Elem()
@@ -982,28 +1015,47 @@ func (g *Gen) callTermBases(c *ssa.CallCommon, inLoop func(ssa.Value) bool) map[
 	var key string
 	var actuals []ssa.Value
 	var names []string
+	var fc *FuncContract
 	if c.IsInvoke() {
-		return out
+		// a call through an interface: the contract of the interface method (io.Reader.Read), parameters by its params option
+		key = methodKey(c.Value.Type(), c.Method.Name())
+		fc = g.E.contracts.Funcs[key]
+		if fc == nil || fc.Opts["params"] == "" {
+			return out
+		}
+		names = strings.Split(fc.Opts["params"], ",")
+		actuals = append(actuals, c.Value)
+		actuals = append(actuals, c.Args...)
+	} else {
+		f, ok := c.Value.(*ssa.Function)
+		if !ok {
+			return out
+		}
+		key = funcKey(f)
+		fc = g.E.contracts.Funcs[key]
+		if fc == nil || fc.Opts["inline"] == "true" {
+			return out
+		}
+		if f.Signature.Recv() != nil {
+			names = append(names, f.Signature.Recv().Name())
+		}
+		for i := 0; i < f.Signature.Params().Len(); i++ {
+			names = append(names, f.Signature.Params().At(i).Name())
+		}
+		if p, ok := fc.Opts["params"]; ok {
+			names = strings.Split(p, ",")
+		}
+		actuals = append(actuals, c.Args...)
 	}
-	f, ok := c.Value.(*ssa.Function)
-	if !ok {
-		return out
+	// an argument p[a:b] computed inside the loop from a slice defined outside it shares that slice's backing array:
+	// for naming the written object (contents(p)) the outer slice will do
+	for i, a := range actuals {
+		if sl, isSlice := a.(*ssa.Slice); isSlice && inLoop(a) && !inLoop(sl.X) {
+			if _, ok := sl.X.Type().Underlying().(*types.Slice); ok {
+				actuals[i] = sl.X
+			}
+		}
 	}
-	key = funcKey(f)
-	fc := g.E.contracts.Funcs[key]
-	if fc == nil || fc.Opts["inline"] == "true" {
-		return out
-	}
-	if f.Signature.Recv() != nil {
-		names = append(names, f.Signature.Recv().Name())
-	}
-	for i := 0; i < f.Signature.Params().Len(); i++ {
-		names = append(names, f.Signature.Params().At(i).Name())
-	}
-	if p, ok := fc.Opts["params"]; ok {
-		names = strings.Split(p, ",")
-	}
-	actuals = append(actuals, c.Args...)
 	bad := map[string]bool{}
 	for _, m := range fc.Modifies {
 		for _, le := range m.Es {
@@ -1448,7 +1500,9 @@ func (g *Gen) frameObligations(pos token.Pos) {
 	}
 	// allowed locations, evaluated in the entry state
 	type loc struct{ heap, idx string }
+	type rloc struct{ heap, idx, lo, hi string }
 	var allowed []loc
+	var ranged []rloc
 	wholeVar := map[string]bool{}
 	env := g.fnEnv(g.entry, nil)
 	for _, m := range g.fc.Modifies {
@@ -1479,6 +1533,14 @@ func (g *Gen) frameObligations(pos token.Pos) {
 			if err != nil {
 				g.E.fatalf("%s:%d: %v", m.File, m.Line, err)
 				continue
+			}
+			if c, ok := le.(*ECall); ok && c.Fun == "contents" && len(c.Args) == 1 && len(heaps) == 1 {
+				// contents(s): only s[0] .. s[len(s)-1] of the backing array (what callers assume, see havocLoc)
+				if v, err := g.evalVal(env, c.Args[0]); err == nil {
+					lo := "(sl.off " + v.S + ")"
+					ranged = append(ranged, rloc{heaps[0], idx, lo, g.add(lo, "(sl.len "+v.S+")")})
+					continue
+				}
 			}
 			for _, h := range heaps {
 				if whole {
@@ -1529,8 +1591,18 @@ func (g *Gen) frameObligations(pos token.Pos) {
 				exc = append(exc, fmt.Sprintf("(not (= r %s))", l.idx))
 			}
 		}
+		var rexc []string
+		for _, l := range ranged {
+			if l.heap == n {
+				rexc = append(rexc, fmt.Sprintf("(not (and (= r %s) %s %s))", l.idx, g.le(l.lo, "j"), g.lt("j", l.hi)))
+			}
+		}
 		// objects allocated by this call are not part of the caller-visible frame
 		goal := fmt.Sprintf("(forall ((r Int)) (=> (and (< r |$alloc@0|) (< (ref.root r) |$alloc@0|) %s true) (= (select %s r) (select %s r))))", strings.Join(exc, " "), cur, ent)
+		if len(rexc) > 0 {
+			// element-wise: of the arrays named by contents(s) only the elements of s may differ
+			goal = fmt.Sprintf("(forall ((r Int) (j %s)) (=> (and (< r |$alloc@0|) (< (ref.root r) |$alloc@0|) %s %s true) (= (select (select %s r) j) (select (select %s r) j))))", g.idxSort(), strings.Join(exc, " "), strings.Join(rexc, " "), cur, ent)
+		}
 		if strings.HasPrefix(n, "F.") {
 			// struct field heaps: one obligation per return for all of them together
 			fieldGoals = append(fieldGoals, goal)
